@@ -31,6 +31,75 @@ def one(binary, scratch, n, me, maxver, denv, seed):
     return r, d
 
 
+TCFG = """CONSTANTS N = 2 Me = 0 MaxVer = %d LogFile = "%s"
+SPECIFICATION TSpec
+INVARIANTS CurrentSigned StagingSigsSound
+CONSTRAINT Mark
+POSTCONDITION Accepted
+CHECK_DEADLOCK FALSE
+"""
+
+
+def scenario_traces(prop, scratch, seed, tl, dr):
+    import json, re
+    sbin = vlib.build_harness(scratch, pkg="./scen", name="scen.test")
+    tdir = os.path.join(scratch, "tlc-MachineTrace")
+    os.makedirs(tdir, exist_ok=True)
+    trace = os.path.join(tdir, "trace.ndjson")
+    d = vlib.run_driver(sbin, "TestRepoScenarios", dict(VERIF_TRACE_OUT=trace, VERIF_SEED=seed), scratch, "scen", timeout=1200)
+    lines = [json.loads(ln) for ln in open(trace) if ln.strip()]
+    maxv = max([1] + [max(l["cv"], l["sv"]) for l in lines]) + 1
+    rt = vlib.tlc(scratch, "MachineTrace", TCFG % (maxv, "trace.ndjson"), name="MachineTrace", workers=1, timeout=3000)
+    out = rt["out"]
+    rt["out"] = ""
+    tl.append(rt)
+    info = dict(scenarios=d["counts"].get("scenarios", 0), traces=d["counts"].get("traces", 0), lines=len(lines), accepted=rt["ok"])
+    d["counts"] = dict(scenario_traces=info["traces"], scenario_trace_lines=len(lines))
+    if not rt["ok"]:
+        viol = rt["violated"] or ""
+        inv = "nvariant" in viol
+        if not inv and "ostcondition" not in viol:
+            raise vlib.Inconclusive("TLC failed on MachineTrace: %s" % viol)
+        m = re.search(r"high-water mark\D+(\d+)", out)
+        k = min(int(m.group(1)), len(lines)) - 1 if m else len(lines) - 1
+        lo = k
+        while lo > 0 and lines[lo]["ev"] != "reset":
+            lo -= 1
+        rp = os.path.join(scratch, "replays")
+        os.makedirs(rp, exist_ok=True)
+        dst = os.path.join(rp, "%s-scenario-trace.ndjson" % prop)
+        with open(dst, "w") as f:
+            for l in lines[lo:k + 1]:
+                f.write(json.dumps(l) + "\n")
+        bad = lines[k]
+        if inv and prop == "C01":
+            d["violations"].append(dict(property="C01", kind="monitor", sig="scenario|%s|%s" % (bad["scen"], viol.split()[1] if len(viol.split()) > 1 else "invariant"),
+                                        what="in the repository's scenario '%s' the machine of %s (channel %s...) reaches a state that violates %s: "
+                                             "the recorded trace up to that state is the replay" % (bad["scen"], bad["who"], bad["ch"][:8], viol), replay=dst))
+        elif not inv and prop == "C09":
+            d["violations"].append(dict(property="C09", kind="monitor", sig="scenario|%s|%s" % (bad["scen"], bad["ev"]),
+                                        what="in the repository's scenario '%s' the machine of %s (channel %s...) makes a step that no operation of "
+                                             "Machine.tla explains: persister call '%s' leading to phase %s, current v%d, staged v%d (line %d of its "
+                                             "trace)" % (bad["scen"], bad["who"], bad["ch"][:8], bad["ev"], bad["ph"], bad["cv"], bad["sv"], k - lo), replay=dst))
+    else:
+        # negative control of the binding: the same log with one signature flag of an enabled state cleared must be rejected
+        neg = [dict(l) for l in lines]
+        k = next((i for i, l in enumerate(neg) if l["ev"] == "enabled" and l["cv"] >= 1), None)
+        if k is not None:
+            neg[k]["csig"] = [neg[k]["csig"][0], False]
+            ndir = os.path.join(scratch, "tlc-MachineTrace_neg")
+            os.makedirs(ndir, exist_ok=True)
+            with open(os.path.join(ndir, "trace_neg.ndjson"), "w") as f:
+                for l in neg:
+                    f.write(json.dumps(l) + "\n")
+            rn = vlib.tlc(scratch, "MachineTrace", TCFG % (maxv, "trace_neg.ndjson"), name="MachineTrace_neg", workers=1, timeout=3000)
+            if rn["ok"]:
+                raise vlib.Inconclusive("negative control: a corrupted scenario trace was accepted by MachineTrace.tla")
+            info["negative_control"] = "rejected as required"
+    dr.append(d)
+    return info
+
+
 def run(prop, tier, seed, scratch, t0):
     binary = vlib.build_harness(scratch)
     cfgs, denv = configs(tier)
@@ -41,6 +110,9 @@ def run(prop, tier, seed, scratch, t0):
             r, d = f.result()
             tl.append(r)
             dr.append(d)
+    # R3: the repository's own client scenarios, recorded at the persister (the linearisation point of every machine
+    # operation inside a real client) and validated by TLC against Machine.tla (MachineTrace.tla)
+    scen = scenario_traces(prop, scratch, seed, tl, dr)
     if prop == "C09":  # channel.ActionMachine: ActionMachine.tla, every edge
         for (n, me) in ([(2, 0), (2, 1)] if tier == "quick" else [(2, 0), (2, 1), (3, 1)]):
             ra = vlib.tlc(scratch, "ActionMachine", "CONSTANTS N = %d Me = %d MaxVer = 2\nSPECIFICATION Spec\nINVARIANTS CurrentAfterInit\n"
@@ -62,6 +134,12 @@ def run(prop, tier, seed, scratch, t0):
     drift = sorted({v["sig"] for v in viol if v["property"] == other})
     samples = [s for d in dr for s in d["samples"]][:4]
     nontriv = counts.get("edges_executed_total", 0)
+    scen_rule = (" In addition (R3) the repository's own client scenarios (payments with / without app, dispute, sub-channels, sub-channel "
+                 "dispute, forced progression, persistence / restore, virtual channel optimistic / dispute) run with a recording persister; "
+                 "the machine-level trace of every (client, channel) - kind of persister call and projected state with re-verified "
+                 "signatures after every machine operation - is validated by TLC against Machine.tla (MachineTrace.tla: every line "
+                 "must be explained by an operation of the specification, CurrentSigned / StagingSigsSound evaluated in every state; "
+                 "a corrupted copy of the log must be rejected).")
     if prop == "C01":
         rule = ("every edge (abstract machine state, operation with arguments, predicted result class) of the reachable graph of "
                 "Machine.tla executed on a real channel.StateMachine; after every step every stored signature of StagingTX()/"
@@ -75,8 +153,8 @@ def run(prop, tier, seed, scratch, t0):
     cov = dict(
         states=sum(r["distinct"] for r in tl), transitions=counts.get("graph_edges", 0),
         traces_validated_against_impl=counts.get("walks", 0) + counts.get("gseq_sequences", 0) + counts.get("graph_states", 0),
-        samples=samples, evaluations=counts.get("steps", 0), distinct_nontrivial=nontriv, rule=rule,
-        exhaustive=True,
+        samples=samples, evaluations=counts.get("steps", 0), distinct_nontrivial=nontriv, rule=rule + scen_rule,
+        exhaustive=True, recorded_scenario_traces=scen,
         tlc=[dict(config=r["cmd"].split("-config ")[1].split()[0], generated=r["generated"], distinct=r["distinct"],
                   depth=r["depth"], wall_s=round(r["wall"], 1)) for r in tl],
         configurations=["N=%d Me=%d MaxVer=%d" % c for c in cfgs],
